@@ -247,6 +247,7 @@ def check_property(prop, reg, args, seed):
     seen_assumptions = set()
     smt_ms = 0.0
     checker_cmds = []
+    base_discharged = set(baseline.get(prop, {}).get('discharged', [])) if baseline.get(prop) and not args.rebaseline else None
     for u in units:
         if u not in results:
             continue
@@ -334,6 +335,9 @@ def check_property(prop, reg, args, seed):
                     kf = next((k for k in known if k['obligation'] == oid and (k['at'] == '*' or k['at'] == at or (k['at'].endswith('...') and at.startswith(k['at'][:-3])))), None)
                     if kf:
                         known_hits.append((kf, rec))
+                    elif base_discharged is not None and ob['id'] not in base_discharged:
+                        # not an obligation that is discharged on the unchanged tree: never an alarm
+                        tool_limits.append('%s: obligation %s fails but is not in baseline/baseline.json (new or never discharged): %s' % (u, oid, e['message'][:120]))
                     else:
                         violations.append(rec)
         for it in gen.items:
@@ -383,7 +387,7 @@ def check_property(prop, reg, args, seed):
     if n_ob == 0:
         tool_limits.append('no obligations generated')
     if args.rebaseline and not violations and not tool_limits:
-        baseline[prop] = {'discharged': sorted(o['id'] for o in obligations if o['status'] == 'discharged'),
+        baseline[prop] = {'discharged': sorted(o['id'] for o in obligations if o['status'] == 'discharged' and o.get('class', 'proved') == 'proved' and not o['id'].startswith('kani/')),
                           'ms': {o['id']: o['ms'] for o in obligations if 'ms' in o}}
         os.makedirs(os.path.join(ROOT, 'baseline'), exist_ok=True)
         with open(os.path.join(ROOT, 'baseline', 'baseline.json'), 'w') as f:
